@@ -240,7 +240,8 @@ func (s *State) Eval(op prog.Op, now int64) Outcome {
 	case "getall":
 		ks, vs := s.liveKeys(op.B, now, nil)
 		if len(ks) == 0 {
-			return errOnly()
+			// nothing live: "not found" error, or an empty result
+			return Outcome{Vals: []string{"[]"}, ErrOK: true}
 		}
 		return val(EncPairs(ks, vs), nil)
 	case "range":
@@ -249,7 +250,8 @@ func (s *State) Eval(op prog.Op, now int64) Outcome {
 		}
 		ks, vs := s.liveKeys(op.B, now, func(k string) bool { return k >= op.Key && k <= op.Key2 })
 		if len(ks) == 0 {
-			return errOnly()
+			// nothing live: "not found" error, or an empty result
+			return Outcome{Vals: []string{"[]"}, ErrOK: true}
 		}
 		return val(EncPairs(ks, vs), nil)
 	case "prefix", "psearch":
@@ -283,7 +285,8 @@ func (s *State) Eval(op prog.Op, now int64) Outcome {
 			ks, vs = ks[:op.J], vs[:op.J]
 		}
 		if len(ks) == 0 {
-			return errOnly()
+			// nothing live: "not found" error, or an empty result
+			return Outcome{Vals: []string{"[]"}, ErrOK: true}
 		}
 		return val(EncPairs(ks, vs), nil)
 	}
@@ -1178,6 +1181,24 @@ func UniverseOf(p *prog.Program) *Universe {
 // ObserveOps is the full observation: every read the API has over the universe.
 // Only reads whose result is exactly defined are included.
 func (u *Universe) ObserveOps(sparse bool) []prog.Op {
+	ops := u.observeOps(sparse)
+	if len(OnlyKinds) == 0 {
+		return ops
+	}
+	var out []prog.Op
+	for _, op := range ops {
+		if OnlyKinds[op.K] {
+			out = append(out, op)
+		}
+	}
+	return out
+}
+
+// OnlyKinds, when set, restricts the full observation to these op kinds
+// (experiments and narrowly scoped checks).
+var OnlyKinds map[string]bool
+
+func (u *Universe) observeOps(sparse bool) []prog.Op {
 	var ops []prog.Op
 	for _, b := range u.KVBuckets {
 		for _, k := range u.KVKeys {
